@@ -473,6 +473,18 @@ def r10_6(chk, tier):
                         for a, lab, e in g.guards(nd):
                             for y in A.walk(a):
                                 if y.get('k') == 'DeclRefExpr' and y.get('dk') == 'EnumConstant' and y.get('n') in ('array', 'object'): kinds_moved.add(y.get('v'))
+            # the children are taken out of the container itself: a loop that iterates over copies of the elements copies every subtree
+            # (recursively) and leaves the originals nested
+            copies = []
+            if callee is not None and callee.get('body') is not None:
+                for x in A.walk_no_lambda(callee['body']):
+                    if x.get('k') == 'CXXForRangeStmt' and x.get('var') is not None and x['var'].get('t'):
+                        vt = callee['_types'][x['var']['t'] - 1]
+                        if not vt.rstrip().endswith('&'): copies.append((x.get('l'), vt))
+            if copies:
+                chk.fail('R10.6', site, fn['file'], copies[0][0], 'flatten_and_destroy() iterates over the children by value (`%s`, line %s): each child is deep-copied (recursion per level) and '
+                         'the nested originals are destroyed recursively afterwards' % (copies[0][1][:60], copies[0][0]), None, fn['q'])
+                continue
             if len(kinds_moved) >= 2: chk.ok('R10.6', site, {'function': fn['q'], 'kinds_flattened': sorted(kinds_moved)})
             else: chk.fail('R10.6', site, fn['file'], fn['l'], 'flatten_and_destroy() moves children of %d container kind(s) to the work list, both array and object are needed' % len(kinds_moved), None, fn['q'])
 
@@ -505,7 +517,9 @@ def r10_7(chk, tier):
             return out
         for cls, fns in sorted(classes.items()):
             short = A.strip_targs(cls).split('::')[-1]
-            for b, e in DEPTH_PAIRS:
+            # the fixed pairs plus every begin_X / end_X pair of the class (begin_classical_array_storage / end_classical_array_storage ...)
+            pairs = list(DEPTH_PAIRS) + sorted((b, 'end_' + b[6:]) for b in fns if b.startswith('begin_') and ('end_' + b[6:]) in fns and (b, 'end_' + b[6:]) not in DEPTH_PAIRS)
+            for b, e in pairs:
                 if b not in fns or e not in fns: continue
                 incs = counters(fns[b], '++'); decs = counters(fns[e], '--')
                 if not incs and not decs: continue
